@@ -92,6 +92,16 @@ Proof.
 Qed.
 Print Assumptions C17_last_written_value.
 
+(* reads (of a whole tile or of its leading part: the model works on tile values, a tile is moved as a whole by
+   the datatype of its first access) change no value, do not move a version and do not touch the owner's storage:
+   they do not change what a flush returns *)
+Theorem C17_reads_do_not_change_what_a_flush_returns : forall owner body k r t, (forall d, writes t d = false) ->
+  (forall m d, exec_task body k t m d = m d) /\
+  (forall ip d, inpl_step owner ip (FUser r t) d = ip d) /\
+  (forall fp j v h d, ftask_at fp j = FUser r t -> home_update owner fp j v h d = h d).
+Proof. exact read_only_transparent. Qed.
+Print Assumptions C17_reads_do_not_change_what_a_flush_returns.
+
 (* the API level: what the calls insert.  After parsec_dtd_data_flush(d) the current version of d is
    the owner's storage; after parsec_dtd_data_flush_all (followed by waits) that of every tile is;
    the user tasks of the inserted sequence are the application's tasks *)
